@@ -941,8 +941,47 @@ def run_C07(res):
                 res.fail("well-formed FEN parsed to a different position than it spells", fen=f, build=build, observed=sab[r], expected=good[k][1])
 
 
+def exact_replay(f):
+    """re-run the recorded failing case itself on the current tree (both harness builds, the model, the specification)"""
+    if not isinstance(f, dict):
+        return
+    lines = []
+    if "request" in f and isinstance(f["request"], str) and not f["request"].endswith("…"):
+        lines.append(f["request"])
+    if "position" in f and isinstance(f["position"], str) and len(f["position"].split()) == 22:
+        p = f["position"]
+        lines += ["moves " + p, "count " + p, "caps " + p, "valid " + p, "key " + p, "fenout " + p]
+        if "move" in f:
+            m = f["move"].split(":")
+            lines.append(f"make {p} {m[-3]} {m[-2]} {m[-1]} 1")
+        if "token" in f:
+            lines.append(f"apply {p} {f['token']}")
+    if "root" in f and "limit" in f:
+        lines.append(f"root {f['root']} {','.join(str(x) for x in f.get('history', [])) or '-'} {f.get('table', '1')} {f['limit']}")
+    if "fen" in f:
+        lines.append("fenin " + f["fen"])
+    for l in lines:
+        a = run_hx([l])[0]
+        c = run_hx([l], "checked")[0]
+        ml = l.replace("fenin ", "feninw ", 1) if l.startswith("fenin ") else l
+        m = run_driver([ml])[0]
+        log(f"replay> {l[:200]}\n   optimised: {a[:300]}\n   checked  : {c[:300]}\n   model    : {m[:300]}")
+        if l.startswith("moves "):
+            log("   spec     : " + run_driver(["smoves " + l[6:]])[0][:300])
+    if "script" in f and isinstance(f["script"], list):
+        for b in ("release", "checked"):
+            rc, out, err, to, secs = vlib.run_engine(f["script"], b, timeout=30)
+            log(f"replay> script on the {b} binary: exit={rc} timed_out={to}\n" + out[-1500:] + ("\nstderr: " + err[-300:] if err else ""))
+
+
 def generic_replay(res, path, spec):
     data = json.load(open(path))
+    try:
+        if spec.get("bins"):
+            vlib.cargo_build_bins()
+        exact_replay(data.get("failure"))
+    except Exception as e:      # the exact replay is a convenience; the verdict comes from re-running the check
+        log("exact replay failed: " + repr(e))
     log("replaying " + path + " by re-running the property's check on the current tree (the failing case is regenerated from the recorded seed)")
     res.seed = data.get("seed", res.seed)
     res.tier = data.get("tier", res.tier)
